@@ -188,7 +188,14 @@ func (s *Server) Exit(ctx context.Context) error {
 func (s *Server) DidOpen(ctx context.Context, params *protocol.DidOpenTextDocumentParams) error {
 	s.documents.Store(params.TextDocument.URI, params.TextDocument.Text)
 	s.docGen.Add(1)
-	s.payeeTemplatesCache.Delete(params.TextDocument.URI)
+	s.dropPayeeTemplates()
+	if path := uriToPath(params.TextDocument.URI); path != "" {
+		if s.workspace != nil {
+			// the buffer may differ from the file on disk (a restored unsaved document)
+			s.workspace.UpdateFile(path, params.TextDocument.Text)
+		}
+		s.loader.InvalidateFile(path)
+	}
 	go s.publishDiagnostics(ctx, params.TextDocument.URI, params.TextDocument.Text)
 	return nil
 }
@@ -215,8 +222,9 @@ func (s *Server) DidChange(ctx context.Context, params *protocol.DidChangeTextDo
 		}
 		s.documents.Store(params.TextDocument.URI, content)
 		s.docGen.Add(1)
-		// templates were collected from the previous content
-		s.payeeTemplatesCache.Delete(params.TextDocument.URI)
+		// templates are collected from the whole include tree, and this
+		// document may be part of the tree of any other
+		s.dropPayeeTemplates()
 		if path := uriToPath(params.TextDocument.URI); path != "" {
 			if s.workspace != nil {
 				s.workspace.UpdateFile(path, content)
@@ -259,16 +267,20 @@ func (s *Server) DidClose(ctx context.Context, params *protocol.DidCloseTextDocu
 	s.documents.Delete(params.TextDocument.URI)
 	s.docGen.Add(1)
 	if path := uriToPath(params.TextDocument.URI); path != "" {
-		// from now on the file on disk counts again
+		// from now on the file on disk counts again: unsaved edits are gone
 		s.loader.InvalidateFile(path)
+		if s.workspace != nil {
+			data, _ := os.ReadFile(path)
+			s.workspace.UpdateFile(path, string(data))
+		}
 	}
-	s.payeeTemplatesCache.Delete(params.TextDocument.URI)
+	s.dropPayeeTemplates()
 	tokenCache.delete(params.TextDocument.URI)
 	return nil
 }
 
 func (s *Server) DidSave(ctx context.Context, params *protocol.DidSaveTextDocumentParams) error {
-	s.payeeTemplatesCache.Delete(params.TextDocument.URI)
+	s.dropPayeeTemplates()
 	s.docGen.Add(1)
 
 	if path := uriToPath(params.TextDocument.URI); path != "" {
@@ -588,10 +600,25 @@ func (s *Server) GetResolved(docURI protocol.DocumentURI) *include.ResolvedJourn
 func (s *Server) getWorkspaceResolved(docURI protocol.DocumentURI) *include.ResolvedJournal {
 	if s.workspace != nil {
 		if resolved := s.workspace.GetResolved(); resolved != nil {
-			return resolved
+			// a document beside the root journal's include tree is answered
+			// from its own tree: the workspace tree does not contain it
+			path := uriToPath(docURI)
+			if _, member := resolved.Files[path]; member || path == "" || path == s.workspace.RootJournalPath() {
+				return resolved
+			}
 		}
 	}
 	return s.GetResolved(docURI)
+}
+
+// dropPayeeTemplates forgets the cached posting templates of every document:
+// they are collected from whole include trees, so a change to one document can
+// outdate those of any other.
+func (s *Server) dropPayeeTemplates() {
+	s.payeeTemplatesCache.Range(func(key, _ any) bool {
+		s.payeeTemplatesCache.Delete(key)
+		return true
+	})
 }
 
 func (s *Server) RootURI() string {
